@@ -61,6 +61,7 @@ class SimTransport(asyncio.Transport):
         self.paused = False
         self.n_writes = 0
         self.read_paused = False
+        self.dead = False  # owning process was killed: nothing it does reaches the network any more
 
     # -- asyncio.Transport API -------------------------------------------
     def is_closing(self):
@@ -103,7 +104,7 @@ class SimTransport(asyncio.Transport):
             sim.on_write(self, data, dropped=True)
             return
         sim.on_write(self, data, dropped=False)
-        if not data:
+        if not data or self.dead:
             return
         if self.conn.broken or self.conn.closed[1 - self.side]:
             # peer gone (not yet noticed here): bytes go nowhere
@@ -116,6 +117,7 @@ class SimTransport(asyncio.Transport):
             sim.rec("pause", self.label, self.conn.cid)
             sim.fault("backpressure_pause")
             self.protocol.pause_writing()
+        sim.after_write(self)
 
     def writelines(self, lines):
         self.write(b"".join(lines))
